@@ -153,7 +153,7 @@ pub fn scan_stream(ts: TokenStream, module: &str, scan: &mut Scan, per_module: &
 fn documented_source(l: &Layout) -> String {
     // every other declaration carries its field doc comments *after* the bit/bits attribute
     let after = l.fields.len() % 2 == 0;
-    let ro = RenderOpts { docs: true, vis_pub: true, enum_derives: "#[derive(Debug, PartialEq, Eq)]".into(), docs_after_attr: after };
+    let ro = RenderOpts { docs: true, vis_pub: true, enum_derives: "#[derive(Debug, PartialEq, Eq)]".into(), docs_after_attr: after, struct_derives: String::new() };
     render_layout(l, &ro)
 }
 
@@ -178,7 +178,7 @@ pub fn corpus_c18(tier: Tier, seed: u64) -> Vec<Layout> {
         let h = b / 2;
         let mut l = lay(b, vec![fld("lo", 0, h, uty(h), Access::RW), fld("hi", h, b - h, uty(b - h), Access::RW)]);
         v.push(l.clone());
-        l.default = Some(DefaultDecl { value: 1, named_const: false, radix: 16 });
+        l.default = Some(DefaultDecl { value: 1, named_const: false, radix: 16, const_name: None });
         v.push(l.clone());
         l.debug = true;
         v.push(l.clone());
@@ -192,7 +192,7 @@ pub fn corpus_c18(tier: Tier, seed: u64) -> Vec<Layout> {
 pub fn run(rc: &RunCtx) -> Outcome {
     let layouts = corpus_c18(rc.tier, rc.seed);
     let enums: Vec<EnumDecl> = crate::corpus::enum_corpus(Tier::Quick, rc.seed).into_iter().map(|(_, e)| e).step_by(rc.tier.pick(6, 1)).collect();
-    let ro_doc = RenderOpts { docs: true, vis_pub: true, enum_derives: "#[derive(Debug, PartialEq, Eq)]".into(), docs_after_attr: false };
+    let ro_doc = RenderOpts { docs: true, vis_pub: true, enum_derives: "#[derive(Debug, PartialEq, Eq)]".into(), docs_after_attr: false, struct_derives: String::new() };
     let mut files: Vec<(String, String)> = Vec::new();
     let mut sources: BTreeMap<String, String> = BTreeMap::new();
     for (i, l) in layouts.iter().enumerate() {
